@@ -214,7 +214,14 @@ func (m *SMT) define(prefix string, t Term) Term {
 	m.nfresh++
 	name := fmt.Sprintf("%s!%d", smtIdent(prefix), m.nfresh)
 	m.declared[name] = true
-	m.decls = append(m.decls, Decl{name, fmt.Sprintf("(define-fun %s () %s %s)", name, t.Sort, t.S)})
+	if t.Sort == SBool {
+		m.decls = append(m.decls, Decl{name, fmt.Sprintf("(define-fun %s () %s %s)", name, t.Sort, t.S)})
+	} else {
+		// non-Boolean abbreviations are declared constants with a defining equation, so that they stay
+		// atomic inside quantifier patterns (solvers expand define-fun macros inside patterns)
+		m.decls = append(m.decls, Decl{name, fmt.Sprintf("(declare-fun %s () %s)", name, t.Sort)})
+		m.axioms = append(m.axioms, fmt.Sprintf("(assert (= %s %s))", name, t.S))
+	}
 	return Term{name, t.Sort}
 }
 
@@ -278,6 +285,9 @@ const prelude = `(set-option :produce-models true)
 (assert (forall ((a Str) (b Str)) (! (=> (and (= (slen a) (slen b)) (forall ((i Int)) (! (=> (and (<= 0 i) (< i (slen a))) (= (sat a i) (sat b i))) :pattern ((sat a i)) :pattern ((sat b i))))) (seq a b)) :pattern ((seq a b)))))
 (assert (forall ((s Str) (lo Int) (hi Int)) (! (=> (and (<= 0 lo) (<= lo hi) (<= hi (slen s))) (= (slen (ssub s lo hi)) (- hi lo))) :pattern ((ssub s lo hi)))))
 (assert (forall ((s Str) (lo Int) (hi Int) (i Int)) (! (=> (and (<= 0 lo) (<= lo hi) (<= hi (slen s)) (<= 0 i) (< i (- hi lo))) (= (sat (ssub s lo hi) i) (sat s (+ lo i)))) :pattern ((sat (ssub s lo hi) i)))))
+(assert (forall ((s Str) (lo Int) (hi Int) (j Int)) (! (=> (and (<= 0 lo) (<= lo j) (< j hi) (<= hi (slen s))) (= (sat s j) (sat (ssub s lo hi) (- j lo)))) :pattern ((ssub s lo hi) (sat s j)))))
+(declare-fun sbyte (Int) Str)
+(assert (forall ((c Int)) (! (and (= (slen (sbyte c)) 1) (=> (and (<= 0 c) (<= c 255)) (= (sat (sbyte c) 0) c))) :pattern ((sbyte c)))))
 (assert (forall ((a Str) (b Str)) (! (= (slen (scat a b)) (+ (slen a) (slen b))) :pattern ((scat a b)))))
 (assert (forall ((a Str) (b Str) (i Int)) (! (=> (and (<= 0 i) (< i (+ (slen a) (slen b)))) (= (sat (scat a b) i) (ite (< i (slen a)) (sat a i) (sat b (- i (slen a)))))) :pattern ((sat (scat a b) i)))))
 (assert (forall ((c Int)) (! (= (lcb c) (ite (and (<= 65 c) (<= c 90)) (+ c 32) c)) :pattern ((lcb c)))))
